@@ -380,6 +380,8 @@ def _parse_num(s, want_int):
 
 def array(obj, dtype=None, *a, **k):
     # text -> numbers with tokens standing for symbolic numbers
+    if getattr(dtype, '__name__', '') == 'sym_float':
+        dtype = float           # a harness shimmed `float` in the calling module
     if dtype in (float, int, 'float', 'int', 'float64', 'int64'):
         want_int = dtype in (int, 'int', 'int64')
 
